@@ -45,6 +45,7 @@ type WorkflowNode struct {
 type Workflow[I, O any] struct {
 	g                *graph
 	workflowNodes    map[string]*WorkflowNode
+	nodeOrder        []string // keys of workflowNodes in the order they were declared
 	workflowBranches []*WorkflowBranch
 	dependencies     map[string]map[string]dependencyType
 }
@@ -563,7 +564,10 @@ func (wf *Workflow[I, O]) compile(ctx context.Context, options *graphCompileOpti
 		_ = wf.g.addBranch(wb.fromNodeKey, wb.GraphBranch, true)
 	}
 
-	for _, n := range wf.workflowNodes {
+	// in declaration order: the type a pass-through node is given depends on which of its edges is
+	// added first, so the order must not depend on map iteration
+	for _, key := range wf.nodeOrder {
+		n := wf.workflowNodes[key]
 		for _, addInput := range n.addInputs {
 			if err := addInput(); err != nil {
 				return nil, err
@@ -572,7 +576,8 @@ func (wf *Workflow[I, O]) compile(ctx context.Context, options *graphCompileOpti
 		n.addInputs = nil
 	}
 
-	for _, n := range wf.workflowNodes {
+	for _, key := range wf.nodeOrder {
+		n := wf.workflowNodes[key]
 		if len(n.staticValues) > 0 {
 			value := make(map[string]any, len(n.staticValues))
 			var paths []FieldPath
@@ -642,6 +647,9 @@ func (wf *Workflow[I, O]) initNode(key string) *WorkflowNode {
 			wf.dependencies[key][fromNodeKey] = typ
 		},
 		mappedFieldPath: make(map[string]any),
+	}
+	if _, ok := wf.workflowNodes[key]; !ok {
+		wf.nodeOrder = append(wf.nodeOrder, key)
 	}
 	wf.workflowNodes[key] = n
 	return n
